@@ -145,3 +145,11 @@ Theorem checker_tight :
     C14_check r recmsg summsg = true -> recmsg = record_msg r /\ summsg = summary_msg r.
 Proof. exact checker_tight_proof. Qed.
 Print Assumptions checker_tight.
+
+(* ... and nothing at all is accepted for a record outside the domain: the range premises of the round-trip
+   theorems are forced by the fixed-width fields, not chosen for convenience.  Altogether: *)
+Theorem checker_characterisation :
+  forall (r : record) (recmsg summsg : list (list Z)),
+    C14_check r recmsg summsg = true <-> fits r /\ recmsg = record_msg r /\ summsg = summary_msg r.
+Proof. exact checker_characterisation_proof. Qed.
+Print Assumptions checker_characterisation.
